@@ -32,6 +32,9 @@ def obligations(tier):
                           funcs=(MD + "Metadata.from_chart_lines",), bounds="3 token lines"))
     obs.append(Ob("C10.framing", "CH", "harness.h_chart", "framing", 300, funcs=("chartparse.chart.Chart._partition_lines_by_data_section",),
                   bounds="3 sections x <=2 symbolic body lines of any length (blank lines included): this section's parser receives exactly its own body lines"))
+    obs.append(Ob("C10.by_path", "CH", "harness.h_chart", "route_by_path", 600, {"VF_NSEC": 1, "VF_NPARTS": 16, "VF_PART": 5},
+                  funcs=("chartparse.chart.Chart.from_filepath", "chartparse.chart.Chart.from_file"),
+                  bounds="the [Song] parser receives exactly the [Song] body lines, by path, with the library's logger at WARNING or DEBUG"))
     return obs
 
 
